@@ -1437,7 +1437,7 @@ func TestVerif_C10_cli(t *testing.T) {
 	os.Unsetenv("FZF_DEFAULT_OPTS_FILE")
 	os.Unsetenv("FZF_DEFAULT_COMMAND")
 	cases := c10NthCases(r)
-	lines := c10MkLines(c10Lines([]rune{'a', 'b', 'é', ' ', ':'}, r.Pick(5, 6))[1:]) // without the empty line
+	lines := c10MkLines(c10Lines([]rune{'a', 'b', 'é', ' ', ':'}, r.Pick(4, 6))[1:]) // without the empty line
 	var sb strings.Builder
 	for _, l := range lines {
 		sb.WriteString(l.s)
